@@ -212,4 +212,17 @@ REG.update({
         "assumptions": ["the reward amount of a coinbase ETX is taken from the honest block (worker/validator agreement is C07); only the lockup adjustment uses params.CalculateCoinbaseValueWithLockup",
                         "delegates in coinbase data are not generated", "lockup rewards multiples are inactive below 2*BlocksPerMonth; the regime sets BlocksPerMonth=3 so that lockup bytes 1..3 are used"],
     },
+    "C20": {
+        "level": "exploration",
+        "tests": [{"pkg": "./chainsim", "run": "TestC20", "quick": 320, "thorough": 25000, "chunk": 20}],
+        "rule": S5_RULE + ("Conversions in both directions (Quai->Qi from general senders and from a dedicated converter account, with slippage bytes from the tightest bound to beyond MaxSlip; Qi->Quai singly and in bursts of 8..15 to a dedicated recipient) travel zone -> prime -> zone. "
+                 "One run in six sits on the historic side of the conversion-discount fork (ConversionSlipChangeBlock). Oracles per conversion id (originating tx hash, index), on the canonical chain after every accepted block: "
+                 "delivered either repriced (Conversion) or as a refund (ConversionRevert) of exactly the original amount; when the child prime block becomes head, the repriced amount is <= the amount implied by the rate recorded there and >= the 10 % floor; "
+                 "Quai->Qi credits are minted under the ETX hash, locked until exactly execution height + ConversionLockPeriod, for no more than the delivered value; the Qi->Quai recipient's balance changes at a block by exactly the conversions executed ConversionLockPeriod blocks earlier; "
+                 "the dedicated converter is debited exactly value + gas for every conversion it got included and credited exactly the original value on refund; Qi->Quai refunds are re-minted, locked, for no more than the original."),
+        "expect_probes": ["conversion_amount_bounded", "quai_to_qi_credited", "qi_to_quai_credited", "quai_to_qi_refunded", "qi_to_quai_refunded", "converter_debited", "reorg"],
+        "components": S5_COMPONENTS,
+        "assumptions": ["the exchange-rate controller itself does not move in these runs (fewer than TokenChoiceSetSize prime blocks): rising/falling trajectories are not exercised", "round trips at a fixed rate and the dust rule are bounded only through the per-leg upper bounds",
+                        "the rate applied to conversions confirmed by prime block P is read from the header of P's child prime block (the protocol's own record), not re-derived"],
+    },
 })
